@@ -11,10 +11,11 @@ import (
 )
 
 type c05Case struct {
-	sel  *ssa.Select
-	fn   *ssa.Function
-	body *ssa.BasicBlock
-	recv ssa.Value // value received (Extract), may be nil when unused
+	chanField FieldID
+	sel       *ssa.Select
+	fn        *ssa.Function
+	body      *ssa.BasicBlock
+	recv      ssa.Value // value received (Extract), may be nil when unused
 }
 
 // schedCase finds the scheduler's blocking select case receiving from field f.
@@ -33,7 +34,7 @@ func (a *c05) schedCase(f FieldID) *c05Case {
 				}
 				if _, ok := c05LoadOf(st.Chan, f); ok {
 					si := decodeSelect(sel)
-					c := &c05Case{sel: sel, fn: fn, body: si.Cases[i].Body}
+					c := &c05Case{chanField: f, sel: sel, fn: fn, body: si.Cases[i].Body}
 					for _, r := range refs(sel) {
 						if ex, ok := r.(*ssa.Extract); ok && ex.Index == 2+k {
 							c.recv = ex
@@ -125,7 +126,7 @@ func (a *c05) checkStopCase() {
 		return g, false
 	}
 	f.Exit = func(fn *ssa.Function, g int) int {
-		if fn == a.sched {
+		if a.schedRoots[fn] {
 			return 0
 		}
 		return g
@@ -200,11 +201,31 @@ func (a *c05) checkRearm() {
 			}
 		})
 	}
+	// the wake-up the scheduler waits for is also (re)chosen whenever the
+	// variable holding the channel it selects on is assigned (a timer's channel,
+	// a never-firing channel, nil)
+	var chLoc *c05Loc
+	if _, _, ch := a.wakeCaseChan(); ch != nil {
+		chLoc = a.locOf(ch)
+	}
 	f := &c05Flow{a: a, G: 2}
 	f.Tracked = c05BoolPhi
+	if chLoc != nil && !chLoc.empty() {
+		f.EdgeG = func(from, to *ssa.BasicBlock, g int) int {
+			if len(chLoc.edgeAssign(from, to)) > 0 {
+				return 1
+			}
+			return g
+		}
+	}
 	f.Step = func(in ssa.Instruction, g int) (int, bool) {
 		if arms[in] {
 			return 1, false
+		}
+		if chLoc != nil {
+			if _, ok := chLoc.stepAssign(in); ok {
+				return 1, false
+			}
 		}
 		if st, ok := in.(*ssa.Store); ok {
 			if _, ok := c05FieldAddr(st.Addr, a.fEntries); ok {
@@ -249,6 +270,12 @@ func (a *c05) caseFlow(cs *c05Case, bits int, clear func(in ssa.Instruction, g i
 			}
 		}
 		return clear(in, g), false
+	}
+	f.EdgeG = func(from, to *ssa.BasicBlock, g int) int {
+		if bits&1 != 0 && cs.chanField == a.fRemove && a.removalMiss(from, to) {
+			return g &^ 1
+		}
+		return g
 	}
 	f.Run(nil)
 	return f
@@ -641,6 +668,106 @@ func (a *c05) appendsReceived(call *ssa.Call, cs *c05Case) bool {
 			for _, r2 := range refs(ia) {
 				if st, ok := r2.(*ssa.Store); ok && a.isReceived(st.Val, cs, 0) {
 					return true
+				}
+			}
+		}
+	}
+	return false
+}
+
+// removalMiss: taking the edge from->to establishes that a search of
+// Cron.entries for the entry to remove came back empty (so there is nothing to
+// rewrite): a negative slices.IndexFunc/Index result, a false
+// slices.ContainsFunc/Contains, or the exhaustion of a loop over Cron.entries
+// whose body rewrites the list when it finds the entry (find-and-splice).
+func (a *c05) removalMiss(from, to *ssa.BasicBlock) bool {
+	if len(from.Instrs) == 0 || len(from.Succs) != 2 || from.Succs[0] == from.Succs[1] {
+		return false
+	}
+	ifi, ok := from.Instrs[len(from.Instrs)-1].(*ssa.If)
+	if !ok {
+		return false
+	}
+	br := from.Succs[0] == to
+	overEntries := func(call *ssa.Call) bool {
+		if len(call.Call.Args) == 0 {
+			return false
+		}
+		v := call.Call.Args[0]
+		if s, ok := v.(*ssa.Slice); ok {
+			v = s.X
+		}
+		_, ok := c05LoadOf(v, a.fEntries)
+		return ok
+	}
+	libCall := func(v ssa.Value, names ...string) *ssa.Call {
+		call, ok := v.(*ssa.Call)
+		if !ok {
+			return nil
+		}
+		obj := calleeObj(call)
+		if obj == nil || obj.Pkg() == nil || obj.Pkg().Path() != "slices" {
+			return nil
+		}
+		for _, n := range names {
+			if obj.Name() == n && overEntries(call) {
+				return call
+			}
+		}
+		return nil
+	}
+	for _, at := range append([]c05Atom{{ifi.Cond, br}}, c05ExpandCond(ifi.Cond, br, 0)...) {
+		v, pol := c05CondValue(at.v)
+		tv := at.tv == pol
+		if libCall(v, "ContainsFunc", "Contains") != nil && !tv {
+			return true
+		}
+		cmp, ok := decodeCond(at.v, at.tv)
+		if !ok {
+			continue
+		}
+		x, y, op := cmp.X, cmp.Y, cmp.Op
+		if _, isC := x.(*ssa.Const); isC {
+			x, y = y, x
+			switch op {
+			case token.LSS:
+				op = token.GTR
+			case token.GTR:
+				op = token.LSS
+			case token.LEQ:
+				op = token.GEQ
+			case token.GEQ:
+				op = token.LEQ
+			}
+		}
+		if k, isK := y.(*ssa.Const); isK && k.Value != nil && libCall(x, "IndexFunc", "Index") != nil {
+			kv := k.Int64()
+			// the established relation implies x < 0
+			switch {
+			case op == token.LSS && kv <= 0, op == token.LEQ && kv < 0, op == token.EQL && kv < 0:
+				return true
+			}
+		}
+		// loop exhausted: idx >= len(c.entries)
+		if op == token.GEQ || (op == token.EQL) {
+			if lc, ok := y.(*ssa.Call); ok && builtinName(lc) == "len" && len(lc.Call.Args) == 1 {
+				if _, ok := c05LoadOf(lc.Call.Args[0], a.fEntries); ok {
+					inLoop := reachableFrom(from.Succs[0], map[*ssa.BasicBlock]bool{from: true})
+					if to == from.Succs[0] {
+						inLoop = reachableFrom(from.Succs[1], map[*ssa.BasicBlock]bool{from: true})
+					}
+					for b := range inLoop {
+						if !reachableFrom(b, nil)[from] {
+							continue
+						}
+						for _, in := range b.Instrs {
+							if st, ok := in.(*ssa.Store); ok {
+								if _, ok := c05FieldAddr(st.Addr, a.fEntries); ok {
+									return true
+								}
+							}
+						}
+					}
 				}
 			}
 		}
